@@ -40,6 +40,12 @@ CHECKS = {
              'identical timelines on a stack ladder above the first non-overflowing size and at word sizes 2,3,4,8 when the model saw no value leave '
              '16 bits; --lint rejected or left the code unchanged.',
         note=ISA + '; the premise "values fit 16 bits" is decided by RefInt', ref='6 (C18)'),
+    'C04': dict(
+        engine='svm', technique='sanitizer-style runtime monitor M-SAN (shadow classification of every load/store against live ap/fp and allocated array extents) under a stack-size sweep; prefix-or-overflow outcome rule',
+        text='Exploration: no M-SAN report, trap or silent deviation on any executed (program, args, word, stack) of the memory-stress templates and random '
+             'memory/time-travel programs, swept over every stack size within 6 words of the smallest size that reproduces the generous-stack outcome '
+             '(found by binary search) plus a ladder. A clean sanitizer run is not memory safety: only accesses the workload reached are judged.',
+        note=ISA + '; M-SAN entitlement rules of DESIGN.md section 4 (calibrated silent on 26k accesses of the upstream programs)', ref='6 (C04), 4'),
 }
 
 NOT_YET = {}
